@@ -887,7 +887,7 @@ class OvldMC(type):
         return type(cls)(name, bases, cls.__prepare__(name, bases))
 
     @classmethod
-    def __prepare__(cls, name, bases):
+    def __prepare__(cls, name, bases, **kwds):
         d = ovld_cls_dict(bases)
 
         names = set()
